@@ -190,12 +190,15 @@ class TexturedTriMesh(TriMesh):
         trimesh : :map:`TriMesh`
             A new trimesh created from the vector with ``self`` trilist.
         """
-        return TexturedTriMesh(
+        new_mesh = TexturedTriMesh(
             flattened.reshape([-1, self.n_dims]),
             self.tcoords.points,
             self.texture,
             trilist=self.trilist,
         )
+        if self.has_landmarks:
+            new_mesh.landmarks = self.landmarks
+        return new_mesh
 
     def from_mask(self, mask):
         """
